@@ -77,6 +77,8 @@ def grid(fn, quick, rng):
         # number functions
         if ps == ["Z"]:
             vals = list(range(-6, 31)) + [36, 48, 60, 97, 100, 1000] if fn["id"] in ("Teilerzerlegung", "Primfaktorzerlegung", "Fakultät") else list(range(-6, 8)) + [100, S.I64MAX, S.I64MIN + 1]
+            if fn["id"] == "Primfaktorzerlegung":
+                vals = [v for v in vals if v != 0] + [2 * 3 * 5 * 7 * 11 * 13, 97 * 101, 2 ** 20, 3 ** 12, 999983]   # 0 never leaves the first loop (doc silent)
             return [(v,) for v in vals]
         if ps == ["K"]:
             return [(q,) for q in range(-13, 14)]
@@ -188,23 +190,25 @@ COVER = {
     "Fülle_Text": ("full", ["fuelle_text_spec"]),
     "Buchstaben_Text_BuchstabenListe": ("full", ["buchstaben_liste_spec"]), "Buchstaben_Text_TextListe": ("full", ["buchstaben_textliste_spec"]),
     "Text_Index_Von_Buchstabe": ("full", ["text_index_von_buchstabe_spec"]),
-    "Text_Index_Von_Text": ("bounded", ["text_index_von_text_bounded", "text_index_von_text_leer"]),
+    "Text_Index_Von_Text": ("full", ["text_index_von_text_spec", "text_index_von_text_leer"]),
     "Ist_Text_Leer": ("full", ["ist_text_leer_spec"]),
     "Großschreiben_Wert": ("full", ["grossschreiben_text_spec"]), "Großschreiben": ("full", ["grossschreiben_text_spec"]),
     "Kleinschreiben_Wert": ("full", ["kleinschreiben_text_spec"]), "Kleinschreiben": ("full", ["kleinschreiben_text_spec"]),
     "Polster_Links": ("full", ["polster_links_spec"]), "Polster_Rechts": ("full", ["polster_rechts_spec"]),
-    "Spalte": ("full", ["spalte_spec", "spalte_leer"]), "Spalte_Text": ("bounded", ["spalte_text_bounded", "spalte_text_einzeln"]),
-    "Finde_Subtext": ("bounded", ["finde_subtext_bounded"]),
+    "Spalte": ("full", ["spalte_spec", "spalte_leer"]), "Spalte_Text": ("full", ["spalte_text_spec", "spalte_text_einzeln"]),
+    "Finde_Subtext": ("full", ["finde_subtext_spec"]),
     "Verbinden_Text": ("full", ["verbinden_text_spec"]), "Verbinden_Buchstabe": ("full", ["verbinden_buchstabe_spec"]),
     "Hamming_Distanz": ("full", ["hamming_spec", "hamming_ungleich"]),
+    "Verbinden_Zahl": ("full", ["verbinden_zahl_spec", "zahl_als_text_wert"]), "Levenshtein_Distanz": ("full", ["levenshtein_spec", "levenshtein_lev"]),
+    "Text_Zu_ByteListe": ("full", ["text_zu_byteliste_spec"]), "ByteListe_Zu_Text": ("full (round trip)", ["byteliste_roundtrip"]),
     "Vergleiche_Text": ("full", ["vergleiche_spec"]),
-    "Spalten_Spaltmenge_Text": ("bounded", ["spaltmenge_bounded"]), "Spalten_SpaltmengeText_Text": ("bounded", ["spaltmenge_bounded"]), "Text_Worte": ("bounded", ["spaltmenge_bounded"]),
+    "Spalten_Spaltmenge_Text": ("full", ["spaltmenge_spec"]), "Spalten_SpaltmengeText_Text": ("full", ["spaltmenge_text_spec"]), "Text_Worte": ("full", ["text_worte_spec"]),
     "Tausche": ("full", ["tausche_spec"]), "Quicksort_Ref": ("full", ["quicksort_ref_spec"]), "Quicksort": ("full", ["quicksort_spec"]),
     "Max": ("full", ["max_spec"]), "Max3": ("full", ["max3_spec"]), "Min": ("full", ["min_spec"]), "Min3": ("full", ["min3_spec"]),
     "Clamp": ("full", ["clamp_spec"]), "Sign": ("full", ["sign_spec"]),
     "Größter_Gemeinsamer_Teiler": ("full", ["ggt_spec"]), "Kleinster_Gemeinsamer_Teiler": ("full", ["kgv_spec"]),
-    "Ist_Teilbar": ("full", ["ist_teilbar_spec"]), "Gerade_Zahl": ("full", ["gerade_spec"]), "Fakultät": ("full (0..20)", ["fakultaet_spec"]),
-    "Teilerzerlegung": ("full", ["teiler_spec", "teiler_sorted_desc"]),
+    "Ist_Teilbar": ("full", ["ist_teilbar_spec", "ist_teilbar_null"]), "Gerade_Zahl": ("full", ["gerade_spec"]), "Fakultät": ("full (0..20)", ["fakultaet_spec"]),
+    "Teilerzerlegung": ("full", ["teiler_spec", "teiler_sorted_desc"]), "Primfaktorzerlegung": ("full", ["primfaktorzerlegung_spec"]),
     "Floor": ("full", ["floor_spec", "floor_integers"]), "Ceil": ("full", ["ceil_spec", "ceil_integers"]), "Trunc": ("full", ["trunc_spec"]),
     "Höchste_ListeZ": ("full", ["hoechste_spec"]), "Kleinste_ListeZ": ("full", ["kleinste_spec"]),
     "Mindestens_Liste": ("full", ["mindestens_spec"]), "Höchstens_Liste": ("full", ["hoechstens_spec"]),
@@ -600,7 +604,7 @@ def process_fn(fi):
                 # model vs implementation (observables only)
                 if mo is not None:
                     st["model_compared"] += 1
-                    same = (mo[0] == ob[0] == "err") or (mo[0] == "ok" and ob[0] == "ok" and mo[1] == norm_obs(fn, ob[1]))
+                    same = (mo[0] == ob[0] == "err") or (mo[0] == "ok" and ob[0] == "ok" and mo[1] == norm_obs(fn, ob[1])) or (mo[0] == "fuel" and ob[0] == "timeout")
                     # a cell where the executable violates the specification is reported as such (above); the
                     # correspondence obligation concerns the cells where it satisfies it or where the documentation is silent
                     if not same and not bad and len(res["mismatch"]) < 5:
